@@ -501,7 +501,7 @@ pub fn run(ctx: &Ctx, rep: &mut Report) {
         cases,
         |ctx, p: &Plan, acc| check_plan(ctx, p, acc, true),
     );
-    let n = ctx.cases(6_000, 300_000);
+    let n = ctx.cases(40_000, 600_000);
     run_prop(
         ctx,
         rep,
